@@ -15,6 +15,6 @@ Fixpoint take_lines (fuel : nat) (inp : list Z) : list str :=
 
 Definition run_c12 (inp : list Z) : list Z :=
   match inp with
-  | m :: b :: v :: r => dump_decode (tp_decode (mkG m b v) (take_lines (length r) r))
+  | m :: b :: v :: r => dump_decode (tp_decode (mkTPG m b v) (take_lines (length r) r))
   | _ => [98]
   end.
